@@ -1,4 +1,4 @@
 CONSTANTS
   N = 4
-  WVals = {1, 2, 3}
+  WVals = {1, 2}
   NF = 6
